@@ -652,7 +652,13 @@ func specUpdate(pre *Doc, o *Op, t0, t1 int64, newRev uint64, maxDoc int) Expect
 			return Expect{Accept: 1, NoChange: true, Post: pre.clone()}
 		}
 		if pre.Live() {
-			return Expect{Accept: 1, Post: Doc{Present: true, Body: pre.Body, JSON: true, X: copyX(pre.X), Exp: lo, Rev: newRev}, ExpLo: lo, ExpHi: hi, NewCas: 1, Event: 1}
+			ex := Expect{Accept: 1, Post: Doc{Present: true, Body: pre.Body, JSON: true, X: copyX(pre.X), Exp: lo, Rev: newRev}, ExpLo: lo, ExpHi: hi, NewCas: 1, Event: 1}
+			if tooBig(len(pre.Body), maxDoc) {
+				// the stored body is above the size limit already (SetWithMeta does not look at it); Update writes it back
+				// through WriteCas, which does: no property pins which of the two is right
+				ex.Accept, ex.Why = 0, "size"
+			}
+			return ex
 		}
 		ex := Expect{Accept: 0, Why: "exists", Post: Doc{Present: true, X: sysOnly(pre.X), Exp: lo, Rev: newRev}, NewCas: 1, Event: 1, DCExp: true, DCUserX: true}
 		ex.DCX = true // no property pins the xattrs of a tombstone re-written through Update
